@@ -35,7 +35,7 @@ ASSUMPTIONS = [
 ]
 REQUIRED_MONITORS = ["born:gaussian-homodyne", "born:gaussian-heterodyne", "born:bosonic-homodyne", "born:walrus-sampler-args",
                      "born:fock-photon-counting", "born:fock-homodyne-grid", "cond:gaussian", "cond:bosonic", "cond:fock",
-                     "select:cross-backend", "layout:samples", "dark-counts", "ks:bosonic-sampler"]
+                     "select:cross-backend", "layout:samples", "dark-counts", "ks:bosonic-sampler", "cond:bosonic-non-gaussian"]
 MAX_SKIP_FRACTION = 0.3
 
 
@@ -793,6 +793,89 @@ def gen_case(rng, i):
     return {"kind": "cross", "n": n, "cmds": prior_cmds(rng, n, True), "meas": meas, "hbar": hbar, "cutoff": 10 if n == 2 else 8}
 
 
+def nongauss_case(case, rep, env):
+    """Bosonic backend, non-Gaussian pre-measurement state (cat states: complex weights and complex means) entangled over two
+    modes, one of them measured by homodyne / heterodyne detection (post-selected or sampled): the state afterwards must be
+    <outcome| rho |outcome> / p on the other mode (RefFock reference) and vacuum on the measured mode."""
+    import math
+
+    from .. import nongauss as ng, simrun
+
+    sf, ops = env["sf"], env["ops"]
+    V = lambda locus, kind, what, detail=None: rep.violation(locus, kind, what, case, detail)
+    D, C = 26, 8
+    spec, meas = case["ng"], case["meas"]
+    m = meas["mode"]
+    sf.hbar = 2
+    prog = ng.build(sf, ops, spec)
+    with prog.context as q:
+        if meas["kind"] == "homodyne":
+            ops.MeasureHomodyne(meas["phi"], select=meas.get("select")) | q[m]
+        else:
+            ops.MeasureHeterodyne(select=None if meas.get("select") is None else complex(*meas["select"])) | q[m]
+    np.random.seed(case["seed"])
+    eng = sf.Engine("bosonic")
+    try:
+        res = eng.run(prog)
+    except Exception as e:
+        V("bosonic.measure_" + meas["kind"], "exception:" + type(e).__name__, "%s on a cat-state circuit raised %s: %s" % (
+            meas["kind"], type(e).__name__, str(e)[:150]))
+        return
+    out = complex(np.ravel(res.samples)[0])
+    sel = meas.get("select") is not None
+    f = ng.reference(spec, D)
+    if f.tail(C) > 1e-6:
+        rep.skip("nongauss reference truncation")
+        return
+    if meas["kind"] == "homodyne":
+        v = homodyne_eigvec(D, float(np.real(out)), meas["phi"])
+    else:
+        nn = np.arange(D)
+        v = np.exp(-abs(out) ** 2 / 2) * out ** nn / np.sqrt(np.array([math.factorial(int(k)) for k in nn], dtype=float))
+    rho4 = f.rho.reshape(D, D, D, D)  # (i0, i1, j0, j1)
+    red = np.einsum("a,aibj,b->ij", np.conj(v), rho4, v) if m == 0 else np.einsum("a,iajb,b->ij", np.conj(v), rho4, v)
+    prob = float(np.real(np.trace(red)))
+    if prob < 1e-3:
+        rep.observe("nongauss.skipped:outcome-density-below-1e-3")
+        return
+    red = red[:C, :C] / prob
+    vac = np.zeros((C, C))
+    vac[0, 0] = 1.0
+    exp = np.kron(vac, red) if m == 0 else np.kron(red, vac)
+    snap = simrun.Snap(eng.backend)
+    got = ng.bosonic_dm(snap, C)
+    rep.monitor("cond:bosonic-non-gaussian")
+    rep.seen("nongauss-measurements", "%s%s mode=%d" % (meas["kind"], ":select" if sel else ":sampled", m))
+    d = float(np.max(np.abs(got - exp)))
+    # sampled homodyne: the simulators condition on the discarded conjugate sample as well (finite-squeezing model, see C05)
+    tol = 5e-4 if sel or meas["kind"] != "homodyne" else 6e-3
+    rep.dev("bosonic.non-gaussian-conditional-state/tolerance", d / tol, 1.0)
+    if d > tol:
+        V("bosonic.measure_" + meas["kind"], "conditional-state:non-gaussian" + (":select" if sel else ""),
+          "after %s of mode %d (outcome %s, %s) on an entangled cat-state circuit the bosonic state differs from "
+          "<outcome|rho|outcome>/p (x) vacuum by %.3e in the Fock basis (outcome density %.3e)" % (
+              meas["kind"], m, np.round(out, 5), "post-selected" if sel else "sampled", d, prob))
+
+
+def gen_nongauss_case(rng):
+    from .. import nongauss as ng
+
+    spec = ng.gen_case(rng, allow_approx=False)
+    if spec["n"] == 1:
+        spec["n"] = 2
+    if not any(c["op"] == "BSgate" for c in spec["cmds"]):
+        spec["cmds"].append({"op": "BSgate", "p": [float(rng.uniform(0.4, 1.2)), float(rng.uniform(0, 6.28))], "m": [0, 1], "dag": False})
+    kind = "homodyne" if rng.random() < 0.6 else "heterodyne"
+    meas = {"kind": kind, "mode": int(rng.integers(2))}
+    if kind == "homodyne":
+        meas["phi"] = float(rng.choice([0.0, np.pi / 2, float(rng.uniform(0, 6.28))]))
+        if rng.random() < 0.7:
+            meas["select"] = float(rng.choice([0.0, 0.6, -0.4, float(rng.normal(0, 0.8))]))
+    elif rng.random() < 0.7:
+        meas["select"] = [float(rng.choice([0.0, float(rng.normal(0, 0.5))])), float(rng.choice([0.0, float(rng.normal(0, 0.5))]))]
+    return {"kind": "nongauss", "ng": spec, "meas": meas, "seed": int(rng.integers(2 ** 31))}
+
+
 def plan(tier, seed, scale=1.0):
     n = int((60 if tier == "quick" else 1300) * scale)
     return [{"n": n, "timeout": 3000, "ksN": 250 if tier == "quick" else 2500} for _ in range(16)]
@@ -808,13 +891,20 @@ def dispatch(case, rep, env):
         select_cross_backend(case, rep, env)
     elif case["kind"] == "ks":
         ks_bosonic(case, rep, env)
+    elif case["kind"] == "nongauss":
+        try:
+            nongauss_case(case, rep, env)
+        finally:
+            env["sf"].hbar = 2
 
 
 def run_shard(shard, rep):
     env = load()
     rng = np.random.default_rng([shard["seed"], shard["id"], 6])
     for i in range(shard["n"]):
-        case = gen_case(rng, i)
+        case = gen_case(rng, i) if i % 6 != 5 else gen_nongauss_case(rng)
+        if case["kind"] == "nongauss":
+            rep.case(["nongauss", rnd(case["ng"], 5), rnd(case["meas"], 5)], True)
         try:
             dispatch(case, rep, env)
         except Exception as e:
